@@ -530,6 +530,7 @@ pv_as_float = z3.Function('ParameterValue_as_float', PVal, PVal)
 pv_other = z3.Function('ParameterValue_cast', z3.IntSort(), PVal, PVal)
 str_startswith = z3.Function('str_startswith', Str, Str, z3.BoolSort())
 str_concat = z3.Function('str_concat', Str, Str, Str)
+str_method = z3.Function('str_method', Str, Str, Str)
 _CASTS = {'as_int': 1, 'as_str': 2, 'as_bool': 3}
 
 
@@ -678,6 +679,8 @@ def _value_getattr(it, v, a):
         if a == 'item':
             return _bi('item', lambda it_, args, kw: feat_item(v.term))
         return Abs('ndarray.' + a)
+    if z3.is_expr(v) and v.sort() == Str and a in ('upper', 'lower', 'strip'):
+        return _bi(a, lambda it_, args, kw, a=a: str_method(pm.str_lit(a), v))
     if z3.is_expr(v) and v.sort() == Str and a == 'startswith':
         return _bi('startswith', lambda it_, args, kw: str_startswith(v, pm._lift(args[0], Str)))
     if isinstance(v, str) and a == 'startswith':
@@ -937,7 +940,8 @@ def _binop(it, op, l, r, inplace):
         if (xreal.is_x(l) or xreal.is_x(r) or isinstance(l, float) or isinstance(r, float)) and not isinstance(op, ast.Mod):
             return it.run.fresh('absnum', xreal.XReal)
         return Abs('binop')
-    if isinstance(op, ast.Div) and (xreal.is_x(l) or xreal.is_x(r)):
+    if isinstance(op, ast.Div) and (xreal.is_x(l) or xreal.is_x(r) or ((z3.is_expr(l) or z3.is_expr(r)) and
+                                                                      all(isinstance(x, (int, float)) or z3.is_expr(x) for x in (l, r)))):
         return xdiv(xreal.lift(l), xreal.lift(r))
     if isinstance(op, ast.Add) and ((z3.is_expr(l) and l.sort() == Str) or (z3.is_expr(r) and r.sort() == Str)) \
             and (isinstance(l, str) or isinstance(r, str) or (z3.is_expr(l) and z3.is_expr(r))):
@@ -2679,3 +2683,72 @@ def _subscript7(it, base, idx):
 
 
 M.subscript = _subscript7
+
+
+# ------------------------------------------------------------------------------------------ recording RNG constructions (seeded reproducibility)
+class PartialV:
+    """functools.partial(f, *args, **kw) (recorded, never called by the contracts)."""
+
+    def __init__(self, fn, args, kw):
+        self.fn, self.args, self.kw = fn, list(args), dict(kw)
+
+
+_prev_default_rng8 = E.EXTERNAL['numpy.random.default_rng'].fn
+
+
+def _default_rng8(it, args, kw):
+    rec = getattr(it.run, 'rng_constructions', None)
+    if rec is None:
+        return _prev_default_rng8(it, args, kw)
+    r = RngV()
+    r.seed_arg = args[0] if args else kw.get('seed')          # default_rng() / default_rng(None): OS entropy
+    rec.append(r)
+    return r
+
+
+E.EXTERNAL['numpy.random.default_rng'] = Builtin('numpy.random.default_rng', _default_rng8)
+_prev_partial8 = E.EXTERNAL['functools.partial'].fn
+
+
+def _partial8(it, args, kw):
+    rec = getattr(it.run, 'partials', None)
+    if rec is None:
+        return _prev_partial8(it, args, kw)
+    p = PartialV(args[0], args[1:], kw)
+    rec.append(p)
+    return p
+
+
+E.EXTERNAL['functools.partial'] = Builtin('functools.partial', _partial8)
+for _n in ('RandomState', 'seed', 'random', 'normal', 'uniform', 'rand', 'randn', 'randint', 'choice', 'permutation', 'shuffle', 'lognormal',
+           'standard_cauchy'):
+    def _global_np_random(it, args, kw, _n=_n):
+        rec = getattr(it.run, 'ambient_random', None)
+        if rec is not None:
+            rec.append('numpy.random.' + _n)
+        return Abs('np.random.' + _n)
+    if _n != 'RandomState' or True:
+        _prev = E.EXTERNAL.get('numpy.random.' + _n)
+        if _prev is None:
+            E.EXTERNAL['numpy.random.' + _n] = Builtin('numpy.random.' + _n, _global_np_random)
+
+_prev_truth8 = M.truth_hook
+
+
+def _truth8(it, v):
+    if isinstance(v, PartialV):
+        return True
+    return _prev_truth8(it, v)
+
+
+M.truth_hook = _truth8
+_prev_fresh_like8 = M.fresh_like
+
+
+def _fresh_like8(it, v, name):
+    if isinstance(v, (PartialV, RngV)):
+        return v
+    return _prev_fresh_like8(it, v, name)
+
+
+M.fresh_like = _fresh_like8
